@@ -245,6 +245,23 @@ def build():
     enum("HUv2", [var("A", [F("n", i32), F("m", ("seq", "vec", 0, u8))], [("add", "n", "z5"), ("add", "m", "b0102")]),
                   var("T", [F("field0", u64)], [("add", "field0", "n7")], shape="tuple"),
                   var("S", [F("q", ("opt", s))], [("add", "q", "(0)")]), var("K", [F("k", u8)])])
+    # a unit constructor that carries evolution steps of its own (stored with a header although it has no fields),
+    # followed by more data; a recursive record WITH evolution steps (every level opens chunk regions)
+    eue = enum("EUnitEv", [var("A", shape="unit", steps=[("rem", "old")]), var("B", [F("field0", u8)], shape="tuple"),
+                           var("C", steps=[("add", "gone", "n1"), ("rem", "gone")])])
+    rec("UnitEvHolder", [F("e", eue), F("id", P("u32")), F("es", ("seq", "vec", 0, eue)), F("tail", s)])
+    D.append({"kind": "rec", "name": "ListEv", "fields": [F("head", i32), F("tail", ("opt", ("wrap", "box", ("named", len(D), "ListEv")))),
+                                                          F("note", ("opt", s))],
+              "steps": [("add", "note", "(0)")]})
+    # de-duplicated strings in fields whose WRITING order matters: an added field (own chunk) declared before fields
+    # of the initial version - writer and reader must still meet the strings in the same order
+    dd = P("dstr")
+    rec("DdMid", [F("n", dd), F("a", dd), F("b", dd)], [("add", "n", "b7a")])
+    rec("DdMid2", [F("a", dd), F("m", dd), F("b", dd), F("k", ("opt", dd))], [("add", "m", "b61"), ("add", "k", "(0)")])
+    enum("EDdMid", [var("A", [F("n", dd), F("a", dd)], [("add", "n", "b7a")]), var("B", shape="unit"),
+                    var("C", [F("field0", dd), F("field1", dd)], shape="tuple")])
+    rec("DdMidOuter", [F("x", dd), F("i", ("named", len(D) - 3, "DdMid")), F("e", ("named", len(D) - 1, "EDdMid")), F("y", dd)],
+        [("rem", "z")])
     # seeded random declarations over the small vocabulary
     rng = random.Random(20260930)
     vocab = [u8, i32, u64, s, b, ch, ("opt", u8), ("opt", s), ("seq", "vec", 0, u8), ("seq", "vec", 0, s),
